@@ -33,6 +33,8 @@ def shards(tier, seed):
     cfgs = QUICK_CFGS if tier == 'quick' else THOROUGH_CFGS
     out = [{'name': f'{d}-{config_name(c)}', 'kind': 'ops', 'dtype': d, 'cfg': list(c), 'cases': (14 if c[0] == 1 else 7) * (1 if tier == 'quick' else 4)} for d in DTYPES for c in cfgs]
     out.append({'name': 'sharing', 'kind': 'sharing', 'cases': 60 if tier == 'quick' else 400})
+    for c in [(3, 1, False), (3, 1, True), (5, 2, False)] + ([(2, 0, False), (5, 2, True), (4, 1, False)] if tier != 'quick' else []):
+        out.append({'name': f'mixed-{config_name(c)}', 'kind': 'mixed', 'cfg': list(c), 'cases': 20 if tier == 'quick' else 120})
     return out
 
 
@@ -78,6 +80,8 @@ def run(shard, rec):
     rng = random.Random(f"c37/{shard['seed']}/{shard['name']}")
     if shard['kind'] == 'sharing':
         return run_sharing(shard, rec, rng, np, ns, sim)
+    if shard['kind'] == 'mixed':
+        return run_mixed(shard, rec, rng, np, ns, sim)
     dt = shard['dtype']
     bits16 = dt == 'secint16'
     if bits16:
@@ -573,7 +577,45 @@ def run_sharing(shard, rec, rng, np, ns, sim):
     """np_random_split / np_recombine / np_pseudorandom_share(_0) against the list-based versions"""
     from mpyc import thresha, finfields
     from vlib.oracles import ref
+    import itertools
+    from mpyc import gfpx
     for ci in range(shard['cases']):
+        if ci % 3 == 2:
+            # extension fields and prime fields take turns in one process: array sharing is a function of the field given, not of earlier calls
+            ch, mod = rng.choice([(2, 283), (2, 19), (3, 'x^2+1'), (7, 'x^2+1'), (2, 'x^16+x^5+x^3+x+1')])
+            F = finfields.GF(gfpx.GFpX(ch)(mod))
+            m = rng.choice([2, 3, 4, 5, 7])
+            m = min(m, F.order - 1)
+            t = rng.randrange(0, (m + 1) // 2)
+            n = rng.randrange(1, 6)
+            vals = [rng.randrange(F.order) for _ in range(n)]
+            case = ['sharing-ext', ci, F.order, m, t, vals]
+            if not rec.wants(case):
+                continue
+            flat = lambda b: [int(F(x)) for x in (b.value if hasattr(b, 'value') else np.asarray(b)).reshape(-1)]
+            with rec.guard(f'sharing over GF({F.order}) m={m} t={t}', case, {'mechanism': 'exception', 'fn': 'thresha'}):
+                a = F.array(np.array([F(v).value for v in vals], dtype=object))
+                sh_np = thresha.np_random_split(F, a, t, m)
+                sh_l = thresha.random_split(F, [F(v) for v in vals], t, m)
+                rec.count('sharing_crosschecks')
+                rec.count('extension_field_sharings')
+                for idx in itertools.combinations(range(m), t + 1):
+                    back = thresha.np_recombine(F, [(i + 1, np.asarray(sh_np[i])) for i in idx])
+                    if flat(back) != vals:
+                        rec.violation(f'np_random_split over GF({F.order}) (m={m}, t={t}): shares of parties {idx} recombine to {flat(back)}, secret {vals}',
+                                      {'mechanism': 'wrong-result', 'fn': 'np_random_split', 'field': 'extension'}, {'case': case}, case=case)
+                        break
+                    back = thresha.recombine(F, [(i + 1, list(np.asarray(sh_np[i]).reshape(-1))) for i in idx])
+                    if [int(F(x)) for x in back] != vals:
+                        rec.violation(f'np_random_split over GF({F.order}) (m={m}, t={t}): recombine() of parties {idx} gives {[int(F(x)) for x in back]}, secret {vals}',
+                                      {'mechanism': 'wrong-result', 'fn': 'np_random_split', 'field': 'extension'}, {'case': case}, case=case)
+                        break
+                idx = rng.sample(range(m), t + 1)
+                back = thresha.np_recombine(F, [(i + 1, np.array([x for x in sh_l[i]], dtype=object)) for i in idx])
+                if flat(back) != vals:
+                    rec.violation(f'random_split shares over GF({F.order}) recombined by np_recombine(): {back} != {vals}', {'mechanism': 'wrong-result', 'fn': 'np_recombine', 'field': 'extension'}, {'case': case}, case=case)
+            rec.case(case, nontrivial=t >= 1 and n > 1)
+            continue
         p = rng.choice([101, 257, 2 ** 31 - 1, 2 ** 61 - 1, (1 << 127) - 1])
         F = finfields.GF(p)
         m = rng.choice([1, 2, 3, 4, 5, 7])
@@ -627,3 +669,103 @@ def run_sharing(shard, rec, rng, np, ns, sim):
                     if [int(x) % p for x in l0] != [int(x) % p for x in np.asarray(a0).reshape(-1)]:
                         rec.violation(f'np_pseudorandom_share_0 != pseudorandom_share_zero for party {i} (p={p}, m={m}, t={t})', {'mechanism': 'wrong-result', 'fn': 'np_pseudorandom_share_0'}, {'case': case}, case=case)
         rec.case(case, nontrivial=m > 1 and n > 1, sample={'p': p, 'm': m, 't': t, 'n': n} if ci == 0 else None)
+
+
+def run_mixed(shard, rec, rng, np, ns, sim):
+    """programs that use arrays of several secure types in one session (prime and extension fields taking turns), and that keep several array products pending
+    at the same time (operands arriving from different senders, results awaited in another order): each result equals the plain NumPy / field result"""
+    from mpyc import finfields, gfpx
+    m, t, no_prss = shard['cfg']
+    F8 = finfields.GF(gfpx.GFpX(2)(283))
+    F9 = finfields.GF(gfpx.GFpX(3)('x^2+1'))
+    for ci in range(shard['cases']):
+        order = rng.sample(['gf256', 'secint', 'gf9', 'secfld', 'secfxp', 'gf256', 'secint'], 7)[:rng.randint(3, 6)]
+        n = rng.randint(2, 4)
+        data = {'gf256': ([rng.randrange(256) for _ in range(n)], [rng.randrange(1, 256) for _ in range(n)]), 'gf9': ([rng.randrange(9) for _ in range(n)], [rng.randrange(9) for _ in range(n)]),
+                'secint': ([rng.randrange(-50, 50) for _ in range(n)], [rng.randrange(-50, 50) for _ in range(n)]), 'secfld': ([rng.randrange(101) for _ in range(n)], [rng.randrange(101) for _ in range(n)]),
+                'secfxp': ([rng.randrange(-64, 65) / 8 for _ in range(n)], [rng.randrange(-64, 65) / 8 for _ in range(n)])}
+        A = np.array([[rng.randrange(-32, 33) / 8 for _ in range(3)] for _ in range(2)])
+        B = np.array([[rng.randrange(-32, 33) / 8 for _ in range(3)] for _ in range(2)])
+        W1 = np.array([[rng.randrange(-16, 17) / 8 for _ in range(2)] for _ in range(3)])
+        W2 = np.array([[rng.randrange(-16, 17) / 8 for _ in range(2)] for _ in range(3)])
+        IA = np.array([[rng.randrange(-9, 10) for _ in range(3)] for _ in range(2)])
+        IW = np.array([[rng.randrange(-9, 10) for _ in range(2)] for _ in range(3)])
+        await_order = rng.sample(range(5), 5)
+        sleepy = rng.randrange(m)
+        case = [shard['name'], ci, order, n, await_order]
+        if not rec.wants(case):
+            continue
+
+        async def program(mpc, pid):
+            types = {'gf256': mpc.SecFld(2 ** 8), 'gf9': mpc.SecFld(9), 'secint': mpc.SecInt(32), 'secfld': mpc.SecFld(101), 'secfxp': mpc.SecFxp(32, F_FXP)}
+            res = []
+            for k in order:
+                T = types[k]
+                xs, ys = data[k]
+                if k in ('gf256', 'gf9'):
+                    Fp = T.field
+                    mk = lambda vs: T.array(Fp.array(np.array([Fp(v).value for v in vs], dtype=object)))
+                elif k == 'secfxp':
+                    mk = lambda vs: T.array(np.array(vs), integral=False)
+                else:
+                    mk = lambda vs: T.array(np.array(vs))
+                x = mpc.input(mk(xs if pid == 0 else [0] * n), senders=0)
+                y = mpc.input(mk(ys if pid == m - 1 else [0] * n), senders=m - 1)
+                r = await mpc.output(x * y + x)
+                res.append([int(a) for a in r] if k != 'secfxp' else [float(a) for a in r])
+            # several products pending at once
+            Tx, Ti = types['secfxp'], types['secint']
+            a = mpc.input(Tx.array(A if pid == 0 else np.zeros_like(A), integral=False), senders=0)
+            b = mpc.input(Tx.array(B if pid == m - 1 else np.zeros_like(B), integral=False), senders=m - 1)
+            ia = mpc.input(Ti.array(IA if pid == 0 else np.zeros_like(IA)), senders=0)
+            pend = [a @ W1, b @ W2, W1.T @ b.T, ia @ IW, a @ b.T]
+            if pid == sleepy:
+                for _ in range(3):
+                    await asyncio.sleep(0)
+            outs = [None] * 5
+            for j in await_order:
+                outs[j] = await mpc.output(pend[j])
+            res.append([np.asarray(o, dtype=float).tolist() for o in outs])
+            return res
+        w = sim.World(m, t, no_prss, seed=rng.randrange(1 << 30), policy=rng.choice(sim.POLICIES)).run(program, max_steps=3_000_000)
+        rec.count('worlds')
+        rec.count('multi_party_worlds')
+        rec.count('mixed_type_sessions')
+        res = w.ok_results()
+        feats = {'family': 'mixed', 'dtype': 'several', 'm_gt_1': True, 't_gt_0': t > 0}
+        if res is None:
+            rec.violation(f'{shard["name"]}: session {order} did not complete: {w.status} {w.error_summaries()[:1]} {[r for r in w.results() if r[0] == "EXC"][:1]}', dict(feats, mechanism='no-completion', symptom='hangs' if w.status in ('DEADLOCK', 'STUCK', 'STEP-LIMIT') else 'raises'), {'case': case}, case=case)
+            continue
+        exp = []
+        for k in order:
+            xs, ys = data[k]
+            if k == 'gf256':
+                exp.append([int(F8(a) * F8(b) + F8(a)) for a, b in zip(xs, ys)])
+            elif k == 'gf9':
+                exp.append([int(F9(a) * F9(b) + F9(a)) for a, b in zip(xs, ys)])
+            elif k == 'secfld':
+                exp.append([(a * b + a) % 101 for a, b in zip(xs, ys)])
+            else:
+                exp.append([a * b + a for a, b in zip(xs, ys)])
+        exp_p = [A @ W1, B @ W2, W1.T @ B.T, IA @ IW, A @ B.T]
+        for pid, r in enumerate(res):
+            bad = None
+            for k, g, e in zip(order, r, exp):
+                rec.count('values_compared', len(e))
+                rec.seen('ops', f'mixed:{k}')
+                if k == 'secfld':
+                    g = [a % 101 for a in g]
+                if (k == 'secfxp' and any(abs(a - b) > 4 * 2.0 ** -F_FXP * (1 + abs(b)) for a, b in zip(g, e))) or (k != 'secfxp' and g != e):
+                    bad = f'x*y+x over {k} (after {order[:order.index(k)]}): {g}, expected {e}'
+                    break
+            if bad is None:
+                for j, (g, e) in enumerate(zip(r[-1], exp_p)):
+                    rec.count('values_compared', int(np.asarray(e).size))
+                    rec.count('pending_products_checked')
+                    if np.asarray(g).shape != np.asarray(e).shape or np.max(np.abs(np.asarray(g, dtype=float) - np.asarray(e, dtype=float))) > 64 * 2.0 ** -F_FXP:
+                        bad = f'product {j} of [a@W1, b@W2, W1.T@b.T, ia@IW, a@b.T] pending together (awaited in order {await_order}): {np.asarray(g).tolist()}, NumPy gives {np.asarray(e).tolist()}'
+                        break
+            if bad:
+                rec.violation(f'{shard["name"]}: party {pid}: {bad}', dict(feats, mechanism='wrong-result', symptom='wrong-value'), {'case': case}, case=case)
+                break
+        rec.case(case, nontrivial=True, sample={'config': shard['cfg'], 'session': order} if ci == 0 else None)
